@@ -12,33 +12,49 @@
 //!   codec hs accept <our-genesis> <stream-hex>   => ok <version> | err <E>
 //!   codec hs initiate <our-genesis> <stream-hex> => ok <version> | err <E>
 //!   codec hs self => err PeerWithSelf
+//!   codec timed <ver> <[ms:frag,ms:frag,…]> => [ev;…;pongs:<n>;closed:<0|1>]
+//!       the real reader thread (`conn::listen` + a `MessageHandler`) on a loopback connection; every
+//!       fragment is written after a REAL pause of `ms` milliseconds (pauses longer than
+//!       HEADER_IO_TIMEOUT = 2 s placed strictly inside a message body / one top-up read of the codec);
+//!       events as the handler sees them: body:<t>:<canon> | headers:<n>:<remaining>:<canon> |
+//!       att:<read>:<left> | attsum:<len>:<sum> (file written by conn.rs), then the number of Pongs the
+//!       peer received for its Pings and whether the reader closed the connection
+//!   codec ring new | push <nonce> | self <nonce> | replay <nonce>
+//!       ONE long-lived real `Handshake`: outbound attempts (nonce read off the wire), then it dials
+//!       itself; `replay` = a scripted `Hand` carrying one of its older nonces
 //!
 //! Oracle evaluated here on the implementation (`#ORACLE-FAIL C19 …`): the sequence read differs from
 //! the sequence written (types, canonical bodies, header batches, attachment bytes) for some
 //! fragmentation; a refused frame header consumed more than the header or made the codec request
 //! more than 64 KiB; handshake settles on something else than min(version) / accepts a different
-//! genesis / accepts itself.
+//! genesis / accepts itself (also after 0…250 earlier outbound attempts of the same `Handshake`);
+//! a message sequence written with tolerated pauses is not delivered exactly, a Ping is not
+//! answered, or the connection does not survive.
 use chrono::Utc;
 use grin_core::core::hash::{Hash, Hashed};
-use grin_core::core::{BlockHeader, HeaderVersion};
+use grin_core::core::{
+	Block, BlockHeader, HeaderVersion, Input, Inputs, KernelFeatures, Output, OutputFeatures, TransactionBody, TxKernel,
+};
 use grin_core::global::{self, ChainTypes};
 use grin_core::pow::{Difficulty, Proof, ProofOfWork};
-use grin_core::ser::{self, ProtocolVersion, Writeable};
+use grin_core::ser::{self, DeserializationMode, ProtocolVersion, Writeable};
 use grin_keychain::BlindingFactor;
 use grin_p2p::handshake::Handshake;
 use grin_p2p::msg::{
-	write_message, BanReason, GetPeerAddrs, Hand, Headers, Locator, Message, Msg, MsgHeader, PeerAddrs,
+	write_message, BanReason, Consumed, GetPeerAddrs, Hand, Headers, Locator, Message, Msg, MsgHeader, PeerAddrs,
 	Ping, Pong, SegmentRequest, Shake, TxHashSetArchive, TxHashSetRequest, Type,
 };
 use grin_p2p::types::{AttachmentMeta, Capabilities, P2PConfig, PeerAddr, ReasonForBan};
-use grin_p2p::verif_export::{Codec, Tracker};
+use grin_p2p::verif_export::{listen, Codec, MessageHandler, Tracker};
+use grin_util::secp::pedersen::{Commitment, RangeProof};
 use gvharness::*;
 use std::alloc::{GlobalAlloc, Layout, System};
 use std::collections::BTreeMap;
 use std::io::{Read, Write};
 use std::net::{Shutdown, TcpListener, TcpStream};
 use std::sync::atomic::{AtomicUsize, Ordering};
-use std::sync::Arc;
+use std::sync::{Arc, Mutex};
+use std::time::{Duration, Instant};
 
 // largest single allocation request (whole process; the writer thread only writes)
 static MAX_REQ: AtomicUsize = AtomicUsize::new(0);
@@ -147,6 +163,8 @@ enum Exp {
 	Unknown(u8),
 	Headers(usize, u64, String),
 	Att(usize, usize, u64),
+	/// the whole attachment as conn.rs wrote it to the file (timed runs: the handler gets no bytes)
+	AttSum(usize, u64),
 }
 
 fn checksum(b: &[u8]) -> u64 {
@@ -845,9 +863,835 @@ fn scripted_initiate(our_genesis: Hash, bytes: &[u8]) -> Result<u32, String> {
 	r
 }
 
+// ---------------------------------------------------------------------------------------------
+// timing inside a message body: the real reader thread of conn.rs, real pauses between fragments
+
+fn rand_commit(rng: &mut Rng) -> Commitment {
+	Commitment::from_vec(rng.bytes(33))
+}
+
+fn gen_output(rng: &mut Rng) -> Output {
+	let mut proof = [0u8; 675];
+	proof.copy_from_slice(&rng.bytes(675));
+	Output::new(OutputFeatures::Plain, rand_commit(rng), RangeProof { proof, plen: 675 })
+}
+
+fn gen_kernel(rng: &mut Rng) -> TxKernel {
+	let fee = {
+		let raw = (rng.below(1 << 30) + 1).to_be_bytes();
+		ser::deserialize::<grin_core::core::FeeFields, _>(&mut &raw[..], ProtocolVersion(1), DeserializationMode::default()).unwrap()
+	};
+	let features = if rng.chance(1, 2) {
+		KernelFeatures::Plain { fee }
+	} else {
+		KernelFeatures::HeightLocked { fee, lock_height: rng.below(1 << 20) }
+	};
+	let mut k = TxKernel::with_features(features);
+	k.excess = rand_commit(rng);
+	k
+}
+
+/// a block that passes `UntrustedBlock::read` (mined header, sorted body, light enough)
+fn gen_block(cx: &mut Ctx, n_out: usize, n_kern: usize) -> Block {
+	let header = header_pool(cx, 1).pop().unwrap();
+	let r = &mut cx.rng;
+	let inputs: Vec<Input> = vec![];
+	let outputs: Vec<Output> = (0..n_out).map(|_| gen_output(r)).collect();
+	let kernels: Vec<TxKernel> = (0..n_kern).map(|_| gen_kernel(r)).collect();
+	let body = TransactionBody::init(Inputs::from(inputs.as_slice()), &outputs, &kernels, false).unwrap();
+	Block { header, body }
+}
+
+/// body of a `KernelSegment` response: block hash, then a `Segment<TxKernel>` (positions strictly increasing)
+fn gen_kernel_segment_body(rng: &mut Rng, ver: u32, nl: u64) -> Vec<u8> {
+	let be64 = |x: u64| x.to_be_bytes();
+	let mut b = rng.bytes(32);
+	b.push(rng.below(14) as u8);
+	b.extend_from_slice(&be64(rng.below(1 << 20)));
+	let nh = 1 + rng.below(4);
+	b.extend_from_slice(&be64(nh));
+	let mut p = 0u64;
+	for _ in 0..nh {
+		p += 1 + rng.below(9);
+		b.extend_from_slice(&be64(p));
+	}
+	for _ in 0..nh {
+		b.extend_from_slice(&rng.bytes(32));
+	}
+	b.extend_from_slice(&be64(nl));
+	let mut p = 0u64;
+	for _ in 0..nl {
+		p += 1 + rng.below(9);
+		b.extend_from_slice(&be64(p));
+	}
+	for _ in 0..nl {
+		b.extend_from_slice(&sv(&gen_kernel(rng), ver));
+	}
+	let np = 1 + rng.below(4);
+	b.extend_from_slice(&be64(np));
+	for _ in 0..np {
+		b.extend_from_slice(&rng.bytes(32));
+	}
+	b
+}
+
+#[derive(Default)]
+struct Seen {
+	events: Vec<String>,
+	got: Vec<Exp>,
+	n_att: u64,
+}
+
+/// the `MessageHandler` of the timed runs: records what the reader thread hands over, answers a `Ping`
+/// with a `Pong`, a `TxHashSetArchive` with `Consumed::Attachment`
+struct Recorder {
+	ver: u32,
+	work: std::path::PathBuf,
+	id: u64,
+	seen: Arc<Mutex<Seen>>,
+}
+
+impl MessageHandler for Recorder {
+	fn consume(&self, message: Message) -> Result<Consumed, grin_p2p::Error> {
+		let ver = self.ver;
+		let mut seen = self.seen.lock().unwrap();
+		match message {
+			Message::Headers(d) => {
+				let canon: Vec<u8> = d.headers.iter().flat_map(|h| sv(h, ver)).collect();
+				seen.events.push(format!("headers:{}:{}:{}", d.headers.len(), d.remaining, hex(&canon)));
+				seen.got.push(Exp::Headers(d.headers.len(), d.remaining, hex(&canon)));
+				Ok(Consumed::None)
+			}
+			Message::Attachment(up, _) => {
+				seen.events.push(format!("att:{}:{}", up.read, up.left));
+				seen.got.push(Exp::Att(up.read, up.left, 0));
+				if up.left == 0 {
+					// conn.rs has synced and closed the file before handing the update over
+					let data = std::fs::read(&up.meta.path).unwrap_or_default();
+					seen.events.push(format!("attsum:{}:{}", data.len(), checksum(&data)));
+					seen.got.push(Exp::AttSum(data.len(), checksum(&data)));
+					let _ = std::fs::remove_file(&up.meta.path);
+				}
+				Ok(Consumed::None)
+			}
+			Message::Block(b) => {
+				let c = hex(&sv(&Block::from(b), ver));
+				seen.events.push(format!("body:{}:{}", Type::Block as u8, c));
+				seen.got.push(Exp::Body(Type::Block as u8, c));
+				Ok(Consumed::None)
+			}
+			Message::KernelSegment(r) => {
+				let c = hex(&sv(&r, ver));
+				seen.events.push(format!("body:{}:{}", Type::KernelSegment as u8, c));
+				seen.got.push(Exp::Body(Type::KernelSegment as u8, c));
+				Ok(Consumed::None)
+			}
+			m => {
+				let mut resp = Consumed::None;
+				if let Message::Ping(p) = &m {
+					let pong = Pong { total_difficulty: p.total_difficulty, height: p.height };
+					resp = Consumed::Response(Msg::new(Type::Pong, pong, ProtocolVersion(ver))?);
+				}
+				if let Message::TxHashSetArchive(a) = &m {
+					seen.n_att += 1;
+					let path = self.work.join(format!("timed-att-{}-{}.bin", self.id, seen.n_att));
+					let file = std::fs::File::create(&path).map_err(|_| grin_p2p::Error::Internal)?;
+					let meta = AttachmentMeta {
+						size: a.bytes as usize,
+						hash: a.hash,
+						height: a.height,
+						start_time: Utc::now(),
+						path,
+					};
+					resp = Consumed::Attachment(Arc::new(meta), file);
+				}
+				match canon_message(&m, ver) {
+					Some((t, c)) => {
+						seen.events.push(format!("body:{}:{}", t, c));
+						seen.got.push(Exp::Body(t, c));
+					}
+					None => seen.events.push("other".to_string()),
+				}
+				Ok(resp)
+			}
+		}
+	}
+}
+
+struct TimedRes {
+	events: Vec<String>,
+	got: Vec<Exp>,
+	pongs: usize,
+	closed: bool,
+	wall_ms: u128,
+}
+
+/// write `sched` (pause in ms, fragment) to a fresh loopback connection whose other end is the real
+/// `conn::listen` reader / writer thread pair; collect the Pongs that come back
+fn run_timed(ver: u32, sched: &[(u64, Vec<u8>)], want_pongs: usize, work: &std::path::Path, id: u64) -> TimedRes {
+	let t0 = Instant::now();
+	let listener = TcpListener::bind("127.0.0.1:0").unwrap();
+	let mut client = TcpStream::connect(listener.local_addr().unwrap()).unwrap();
+	client.set_nodelay(true).unwrap();
+	let (server, _) = listener.accept().unwrap();
+	let seen = Arc::new(Mutex::new(Seen::default()));
+	let handler = Recorder { ver, work: work.to_path_buf(), id, seen: seen.clone() };
+	let (_conn_handle, stop_handle) = listen(server, ProtocolVersion(ver), Arc::new(Tracker::new()), handler).unwrap();
+	let mut write_failed = false;
+	for (d, f) in sched {
+		if *d > 0 {
+			std::thread::sleep(Duration::from_millis(*d));
+		}
+		if client.write_all(f).is_err() {
+			write_failed = true;
+			break;
+		}
+		let _ = client.flush();
+	}
+	// the Pongs for our Pings (the writer thread of conn.rs spaces messages 150 ms apart)
+	let mut pongs = 0;
+	let mut closed = write_failed;
+	let _ = client.set_read_timeout(Some(Duration::from_millis(4000)));
+	while !closed && pongs < want_pongs {
+		let mut head = [0u8; 11];
+		match client.read_exact(&mut head) {
+			Ok(()) => {}
+			Err(e) => {
+				if e.kind() != std::io::ErrorKind::WouldBlock && e.kind() != std::io::ErrorKind::TimedOut {
+					closed = true;
+				}
+				break;
+			}
+		}
+		let mut l = [0u8; 8];
+		l.copy_from_slice(&head[3..11]);
+		let mut body = vec![0u8; (u64::from_be_bytes(l) as usize).min(1 << 20)];
+		if client.read_exact(&mut body).is_err() {
+			closed = true;
+			break;
+		}
+		if head[2] == Type::Pong as u8 {
+			pongs += 1;
+		}
+	}
+	// still connected? (nothing more is due: a read must time out, not hit end of stream)
+	if !closed {
+		let _ = client.set_read_timeout(Some(Duration::from_millis(400)));
+		let mut b = [0u8; 1];
+		match client.read(&mut b) {
+			Ok(0) => closed = true,
+			Ok(_) => {}
+			Err(e) if e.kind() == std::io::ErrorKind::WouldBlock || e.kind() == std::io::ErrorKind::TimedOut => {}
+			Err(_) => closed = true,
+		}
+	}
+	stop_handle.stop();
+	let _ = client.shutdown(Shutdown::Both);
+	let s = seen.lock().unwrap();
+	TimedRes { events: s.events.clone(), got: s.got.clone(), pongs, closed, wall_ms: t0.elapsed().as_millis() }
+}
+
+/// a conversation under construction: the stream, what must be delivered, and which codec state waits
+/// for each byte
+struct Conv {
+	ver: u32,
+	stream: Vec<u8>,
+	exp: Vec<Exp>,
+	pings: usize,
+	/// (state the codec is in while it waits for the bytes of the range, start, end)
+	zones: Vec<(&'static str, usize, usize)>,
+	names: Vec<String>,
+}
+
+impl Conv {
+	fn new(ver: u32) -> Conv {
+		Conv { ver, stream: vec![], exp: vec![], pings: 0, zones: vec![], names: vec![] }
+	}
+	fn frame(&mut self, name: &str, w: &[u8], body_state: &'static str) -> usize {
+		let s = self.stream.len();
+		self.zones.push(("None", s, s + 11));
+		if w.len() > 11 {
+			self.zones.push((body_state, s + 11, s + w.len()));
+		}
+		self.stream.extend_from_slice(w);
+		self.names.push(name.to_string());
+		s
+	}
+	fn ping(&mut self, rng: &mut Rng) {
+		let body = Ping { total_difficulty: Difficulty::from_num(rng.next()), height: rng.next() };
+		let canon = hex(&sv(&body, self.ver));
+		let w = wire(&Msg::new(Type::Ping, body, ProtocolVersion(self.ver)).unwrap());
+		self.frame("Ping", &w, "Header(Known)");
+		self.exp.push(Exp::Body(Type::Ping as u8, canon));
+		self.pings += 1;
+	}
+	/// `Headers` of `hs`: returns (start of the items, length of one item)
+	fn headers(&mut self, hs: &[BlockHeader]) -> (usize, usize) {
+		let ver = self.ver;
+		let n = hs.len();
+		let mut i = 0;
+		while i < n {
+			let j = (i + 32).min(n);
+			let canon: Vec<u8> = hs[i..j].iter().flat_map(|h| sv(h, ver)).collect();
+			self.exp.push(Exp::Headers(j - i, (n - j) as u64, hex(&canon)));
+			i = j;
+		}
+		let w = wire(&Msg::new(Type::Headers, Headers { headers: hs.to_vec() }, ProtocolVersion(ver)).unwrap());
+		let s = self.stream.len();
+		self.zones.push(("None", s, s + 11));
+		self.zones.push(("Header(Known Headers: item count)", s + 11, s + 13));
+		self.zones.push(("BlockHeaders", s + 13, s + w.len()));
+		self.stream.extend_from_slice(&w);
+		self.names.push(format!("Headers({})", n));
+		(s + 13, sv(&hs[0], ver).len())
+	}
+	fn block(&mut self, b: &Block) -> (usize, usize) {
+		let canon = hex(&sv(b, self.ver));
+		let w = wire(&Msg::new(Type::Block, b.clone(), ProtocolVersion(self.ver)).unwrap());
+		let s = self.frame("Block", &w, "Header(Known)");
+		self.exp.push(Exp::Body(Type::Block as u8, canon));
+		(s + 11, w.len() - 11)
+	}
+	fn kernel_segment(&mut self, body: &[u8]) -> (usize, usize) {
+		let mut w = sv(&MsgHeader::new(Type::KernelSegment, body.len() as u64), self.ver);
+		w.extend_from_slice(body);
+		let s = self.frame("KernelSegment", &w, "Header(Known)");
+		self.exp.push(Exp::Body(Type::KernelSegment as u8, hex(body)));
+		(s + 11, body.len())
+	}
+	fn unknown(&mut self, t: u8, body: &[u8]) -> (usize, usize) {
+		let mut w = sv(&MsgHeader::new(Type::Ping, body.len() as u64), self.ver);
+		w[2] = t;
+		w.extend_from_slice(body);
+		let s = self.frame("Unknown", &w, "Header(Unknown)");
+		// conn.rs swallows `Message::Unknown`: nothing reaches the handler
+		(s + 11, body.len())
+	}
+	/// `TxHashSetArchive` + attachment: returns (start of the attachment bytes, their number)
+	fn archive(&mut self, rng: &mut Rng, data: &[u8], work: &std::path::Path) -> (usize, usize) {
+		let ver = self.ver;
+		let path = work.join(format!("timed-src-{}.bin", rng.next()));
+		std::fs::write(&path, data).unwrap();
+		let body = TxHashSetArchive { hash: hash32(rng), height: rng.next(), bytes: data.len() as u64 };
+		let canon = hex(&sv(&body, ver));
+		let mut m = Msg::new(Type::TxHashSetArchive, body, ProtocolVersion(ver)).unwrap();
+		m.add_attachment(std::fs::File::open(&path).unwrap());
+		let w = wire(&m);
+		let _ = std::fs::remove_file(&path);
+		let s = self.stream.len();
+		let body_end = s + w.len() - data.len();
+		self.zones.push(("None", s, s + 11));
+		self.zones.push(("Header(Known)", s + 11, body_end));
+		if !data.is_empty() {
+			self.zones.push(("Attachment", body_end, s + w.len()));
+		}
+		self.stream.extend_from_slice(&w);
+		self.names.push(format!("TxHashSetArchive+{}", data.len()));
+		self.exp.push(Exp::Body(Type::TxHashSetArchive as u8, canon));
+		if data.is_empty() {
+			self.exp.push(Exp::Att(0, 0, 0));
+		}
+		let mut off = 0;
+		while off < data.len() {
+			let n = (data.len() - off).min(48_000);
+			self.exp.push(Exp::Att(n, data.len() - off - n, 0));
+			off += n;
+		}
+		self.exp.push(Exp::AttSum(data.len(), checksum(data)));
+		(body_end, data.len())
+	}
+	fn state_at(&self, off: usize) -> &'static str {
+		for (k, a, b) in &self.zones {
+			if *a <= off && off < *b {
+				if *k == "None" && off == *a {
+					return "None (idle, nothing of the frame pulled)";
+				}
+				return k;
+			}
+		}
+		"?"
+	}
+}
+
+struct Scn {
+	name: String,
+	conv: Conv,
+	/// (offset of the first byte written after the pause, pause in ms)
+	cuts: Vec<(usize, u64)>,
+	/// a pause outside the I/O timeouts (model correspondence only, no oracle)
+	outside: bool,
+}
+
+fn make_sched(stream: &[u8], cuts: &[(usize, u64)]) -> Vec<(u64, Vec<u8>)> {
+	let mut v = vec![];
+	let mut last = 0;
+	let mut d = 0;
+	for &(o, p) in cuts {
+		if o <= last || o >= stream.len() {
+			continue;
+		}
+		v.push((d, stream[last..o].to_vec()));
+		last = o;
+		d = p;
+	}
+	v.push((d, stream[last..].to_vec()));
+	v
+}
+
+/// is `off` strictly inside one top-up read of the `BlockHeaders` state? (first read: `hdr_max` bytes, every
+/// later one tops the buffer up to `hdr_max` again after one item of `item` bytes was consumed)
+fn inside_topup(items_start: usize, item: usize, hdr_max: usize, off: usize) -> bool {
+	if off <= items_start {
+		return false;
+	}
+	let rel = off - items_start;
+	if rel < hdr_max {
+		return true;
+	}
+	(rel - hdr_max) % item != 0
+}
+
+fn timed(cx: &mut Ctx, work: &std::path::Path) {
+	const LONG: u64 = 2500; // > HEADER_IO_TIMEOUT (2 s), far below BODY_IO_TIMEOUT (60 s)
+	let hdr_max = global::header_size_bytes(63);
+	let mut scns: Vec<Scn> = vec![];
+	let thorough = cx.thorough;
+	let pool40: Vec<BlockHeader> = header_pool(cx, 40);
+	let ver_of = |i: usize| VERSIONS[i % 4];
+
+	// 1. Headers(40) + Ping: pause after frame header + count + 100 bytes of the first block header
+	{
+		let mut c = Conv::new(1000);
+		let (items, item) = c.headers(&pool40);
+		c.ping(&mut cx.rng);
+		assert!(inside_topup(items, item, hdr_max, items + 100));
+		scns.push(Scn { name: "Headers(40)+Ping, pause 100 bytes into the first header".into(), conv: c, cuts: vec![(items + 100, LONG)], outside: false });
+	}
+	// 2. the same list, pause exactly on an item boundary (after the first header; strictly inside the first top-up read)
+	{
+		let mut c = Conv::new(2);
+		let (items, item) = c.headers(&pool40);
+		c.ping(&mut cx.rng);
+		assert!(inside_topup(items, item, hdr_max, items + item));
+		scns.push(Scn { name: "Headers(40)+Ping, pause on the boundary after item 1".into(), conv: c, cuts: vec![(items + item, LONG)], outside: false });
+	}
+	// 3. a block body
+	{
+		let mut c = Conv::new(3);
+		let b = gen_block(cx, 3, 2);
+		let (body, len) = c.block(&b);
+		c.ping(&mut cx.rng);
+		scns.push(Scn { name: "Block+Ping, pause in the middle of the body".into(), conv: c, cuts: vec![(body + len / 2, LONG)], outside: false });
+	}
+	// 4. a segment response
+	{
+		let mut c = Conv::new(1000);
+		let sb = gen_kernel_segment_body(&mut cx.rng, 1000, 4);
+		let (body, len) = c.kernel_segment(&sb);
+		c.ping(&mut cx.rng);
+		scns.push(Scn { name: "KernelSegment+Ping, pause a third into the body".into(), conv: c, cuts: vec![(body + len / 3, LONG)], outside: false });
+	}
+	// 5. an attachment: pause inside the second 48 000-byte chunk
+	{
+		let mut c = Conv::new(1);
+		let data = cx.rng.bytes(60_000);
+		let (att, _) = c.archive(&mut cx.rng, &data, work);
+		c.ping(&mut cx.rng);
+		scns.push(Scn { name: "TxHashSetArchive+60000+Ping, pause 777 bytes into the second chunk".into(), conv: c, cuts: vec![(att + 48_000 + 777, LONG)], outside: false });
+	}
+	// 6. a pause while idle (message boundary): the read times out with nothing pulled and is retried; then a
+	//    pause inside the 16-byte body of a Ping
+	{
+		let mut c = Conv::new(2);
+		c.ping(&mut cx.rng);
+		let second = c.stream.len();
+		c.ping(&mut cx.rng);
+		scns.push(Scn { name: "Ping, idle pause, Ping with a pause inside its body".into(), conv: c, cuts: vec![(second, LONG), (second + 11 + 7, 2100)], outside: false });
+	}
+	// 7. OUTSIDE the I/O timeouts (model correspondence of the timeout itself): 2.5 s in the middle of a frame
+	//    header: the 5 bytes already pulled are dropped, the stream is desynchronised, the reader leaves
+	{
+		let mut c = Conv::new(1);
+		c.ping(&mut cx.rng);
+		c.ping(&mut cx.rng);
+		scns.push(Scn { name: "OUTSIDE: pause in the middle of a frame header".into(), conv: c, cuts: vec![(5, LONG)], outside: true });
+	}
+	if thorough {
+		// sweep: every body state x offsets (first / middle / last byte of the zone, read boundaries, item and
+		// chunk boundaries) x pauses of 2.1 / 2.5 / 4.1 / 6.5 s, two pauses in one message, all protocol versions
+		let pauses = [2100u64, 2500, 4100, 6500];
+		let mut k = 0usize;
+		let mut next_pause = || {
+			k += 1;
+			pauses[k % 4]
+		};
+		// Headers: 40 and 65 items
+		for (n, vi) in [(40usize, 0usize), (65, 1), (33, 2)] {
+			let hs = header_pool(cx, n);
+			let item = sv(&hs[0], ver_of(vi)).len();
+			let total = item * n;
+			let offs: Vec<(String, usize)> = vec![
+				("between the two count bytes".into(), 0usize.wrapping_sub(1)),
+				("first item byte".into(), 0),
+				("1 byte into item 1".into(), 1),
+				("last byte of the first top-up read".into(), hdr_max - 1),
+				("first top-up read boundary".into(), hdr_max),
+				("1 past the read boundary".into(), hdr_max + 1),
+				("boundary after item 1".into(), item),
+				("boundary after item 31".into(), 31 * item),
+				("boundary after item 32 (batch)".into(), 32 * item),
+				("inside item 33".into(), 32 * item + 100),
+				("last item, last byte".into(), total - 1),
+				("boundary before the last item".into(), total - item),
+			];
+			for (label, rel) in offs {
+				let mut c = Conv::new(ver_of(vi));
+				let (items, _) = c.headers(&hs);
+				c.ping(&mut cx.rng);
+				let off = items.wrapping_add(rel);
+				let p = next_pause();
+				scns.push(Scn { name: format!("Headers({})+Ping, pause at {}", n, label), conv: c, cuts: vec![(off, p)], outside: false });
+			}
+			// two pauses in one list
+			let mut c = Conv::new(ver_of(vi));
+			let (items, _) = c.headers(&hs);
+			c.ping(&mut cx.rng);
+			scns.push(Scn { name: format!("Headers({})+Ping, two pauses", n), conv: c, cuts: vec![(items + 50, 2100), (items + 20 * item + 3, 2500)], outside: false });
+		}
+		// plain bodies, block, segment, unknown type, archive body, attachment
+		for vi in 0..4 {
+			let ver = ver_of(vi);
+			let b = gen_block(cx, 1 + vi, 1 + vi % 2);
+			for frac in [0usize, 1, 2, 3] {
+				let mut c = Conv::new(ver);
+				let (body, len) = c.block(&b);
+				c.ping(&mut cx.rng);
+				let off = match frac {
+					0 => body,
+					1 => body + 1,
+					2 => body + len / 2,
+					_ => body + len - 1,
+				};
+				let p = next_pause();
+				scns.push(Scn { name: format!("Block+Ping, pause at body offset {}/{}", off - body, len), conv: c, cuts: vec![(off, p)], outside: false });
+			}
+			let sb = gen_kernel_segment_body(&mut cx.rng, ver, 1 + vi as u64);
+			for frac in [1usize, 2, 3] {
+				let mut c = Conv::new(ver);
+				c.ping(&mut cx.rng);
+				let (body, len) = c.kernel_segment(&sb);
+				c.ping(&mut cx.rng);
+				let off = body + len * frac / 4;
+				let p = next_pause();
+				scns.push(Scn { name: format!("Ping+KernelSegment+Ping, pause at body offset {}/{}", off - body, len), conv: c, cuts: vec![(off, p)], outside: false });
+			}
+			let ub = cx.rng.bytes(300);
+			for rel in [0usize, 150, 299] {
+				let mut c = Conv::new(ver);
+				let (body, _) = c.unknown(200, &ub);
+				c.ping(&mut cx.rng);
+				let p = next_pause();
+				scns.push(Scn { name: format!("Unknown(300)+Ping, pause at body offset {}", rel), conv: c, cuts: vec![(body + rel, p)], outside: false });
+			}
+		}
+		let data = cx.rng.bytes(100_000);
+		for (vi, rel) in [0usize, 1, 47_999, 48_000, 48_001, 70_000, 96_000, 99_999].iter().enumerate() {
+			let mut c = Conv::new(ver_of(vi));
+			let (att, _) = c.archive(&mut cx.rng, &data, work);
+			c.ping(&mut cx.rng);
+			let p = next_pause();
+			scns.push(Scn { name: format!("TxHashSetArchive+100000+Ping, pause at attachment offset {}", rel), conv: c, cuts: vec![(att + rel, p)], outside: false });
+		}
+		{
+			// inside the 48-byte body of the archive message itself, then inside the attachment
+			let mut c = Conv::new(3);
+			let small = cx.rng.bytes(5_000);
+			let (att, _) = c.archive(&mut cx.rng, &small, work);
+			c.ping(&mut cx.rng);
+			scns.push(Scn { name: "TxHashSetArchive+5000+Ping, pause inside the archive body and inside the attachment".into(), conv: c, cuts: vec![(att - 20, 2100), (att + 2_500, 2500)], outside: false });
+		}
+		// random offsets anywhere after an accepted header, several pauses per conversation
+		for i in 0..12usize {
+			let ver = ver_of(i);
+			let mut c = Conv::new(ver);
+			c.ping(&mut cx.rng);
+			let hs = header_pool(cx, 3 + i % 5);
+			c.headers(&hs);
+			let b = gen_block(cx, 2, 1);
+			c.block(&b);
+			let small = cx.rng.bytes(1_000 + 100 * i);
+			c.archive(&mut cx.rng, &small, work);
+			c.ping(&mut cx.rng);
+			let body_zones: Vec<(usize, usize)> = c.zones.iter().filter(|z| z.0 != "None").map(|z| (z.1, z.2)).collect();
+			let mut cuts: Vec<(usize, u64)> = vec![];
+			for _ in 0..2 {
+				let z = *cx.rng.pick(&body_zones);
+				let off = z.0 + cx.rng.below((z.1 - z.0) as u64) as usize;
+				cuts.push((off, next_pause().min(2500)));
+			}
+			// plus small gaps anywhere (also inside frame headers): well below the header timeout
+			for _ in 0..3 {
+				let off = 1 + cx.rng.below(c.stream.len() as u64 - 1) as usize;
+				cuts.push((off, cx.rng.below(40)));
+			}
+			cuts.sort_unstable();
+			cuts.dedup_by_key(|c| c.0);
+			scns.push(Scn { name: format!("mixed conversation {} with random pauses", i), conv: c, cuts, outside: false });
+		}
+	}
+
+	// run them concurrently (each has its own connection and reader / writer threads), report in order
+	let batch = if thorough { 24 } else { 8 };
+	let t_all = Instant::now();
+	let mut results: Vec<Option<TimedRes>> = (0..scns.len()).map(|_| None).collect();
+	let mut start = 0;
+	while start < scns.len() {
+		let end = (start + batch).min(scns.len());
+		let handles: Vec<_> = (start..end)
+			.map(|i| {
+				let sched = make_sched(&scns[i].conv.stream, &scns[i].cuts);
+				let ver = scns[i].conv.ver;
+				let pings = scns[i].conv.pings;
+				let work = work.to_path_buf();
+				std::thread::spawn(move || {
+					global::set_local_chain_type(ChainTypes::AutomatedTesting);
+					run_timed(ver, &sched, pings, &work, i as u64)
+				})
+			})
+			.collect();
+		for (j, h) in handles.into_iter().enumerate() {
+			results[start + j] = h.join().ok();
+		}
+		start = end;
+	}
+	let wall = t_all.elapsed().as_millis();
+	for (i, scn) in scns.iter().enumerate() {
+		let sched = make_sched(&scn.conv.stream, &scn.cuts);
+		let r = match &results[i] {
+			Some(r) => r,
+			None => {
+				cx.fails += 1;
+				cx.out.raw(&format!("#ORACLE-FAIL C19 timed delivery panicked: {}", scn.name));
+				continue;
+			}
+		};
+		let mut off = 0;
+		for (d, f) in &sched {
+			if off > 0 {
+				let st = scn.conv.state_at(off);
+				if *d >= 2000 {
+					cx.stat(&format!("timed: pause >= 2 s while the codec waits in state {}", st));
+					cx.stat(&format!("timed: pause of {} ms", d));
+				} else {
+					cx.stat("timed: gaps < 2 s");
+				}
+			}
+			off += f.len();
+		}
+		cx.stat(if scn.outside { "timed: deliveries with a pause outside the I/O timeouts (model correspondence only)" } else { "timed: deliveries with tolerated pauses" });
+		let want: Vec<Exp> = scn.conv.exp.iter().filter(|e| !matches!(e, Exp::Unknown(_))).cloned().collect();
+		if !scn.outside && (r.got != want || r.pongs != scn.conv.pings || r.closed) {
+			cx.fails += 1;
+			let short = |v: &Vec<Exp>| v.iter().map(|e| format!("{:?}", e).chars().take(48).collect::<String>()).collect::<Vec<_>>();
+			cx.out.raw(&format!(
+				"#ORACLE-FAIL C19 messages written with pauses within the I/O timeouts were not delivered exactly / not answered / connection lost: {} (version {}, messages {:?}, pauses {:?} (offset, ms), states {:?}): delivered {:?} expected {:?}; pongs {} of {}; connection closed by the reader: {}",
+				scn.name, scn.conv.ver, scn.conv.names, scn.cuts,
+				scn.cuts.iter().map(|c| scn.conv.state_at(c.0)).collect::<Vec<_>>(),
+				short(&r.got), short(&want), r.pongs, scn.conv.pings, r.closed
+			));
+		}
+		if scn.outside {
+			cx.out.raw(&format!(
+				"#STAT timed probe outside the timeouts ({}): delivered {} events, pongs {} of {}, reader closed the connection: {}",
+				scn.name, r.got.len(), r.pongs, scn.conv.pings, r.closed
+			));
+		}
+		let mut evs = r.events.clone();
+		evs.push(format!("pongs:{}", r.pongs));
+		evs.push(format!("closed:{}", if r.closed { 1 } else { 0 }));
+		let sched_txt: Vec<String> = sched.iter().map(|(d, f)| format!("{}:{}", d, hex(f))).collect();
+		cx.out.line(&format!("codec timed {} [{}]", scn.conv.ver, sched_txt.join(",")), &format!("[{}]", evs.join(";")));
+		cx.out.raw(&format!("#STAT timed scenario {}: {} ms", scn.name, r.wall_ms));
+	}
+	cx.out.raw(&format!("#STAT timed: {} deliveries in {} ms wall clock ({} at a time)", scns.len(), wall, batch));
+}
+
+// ---------------------------------------------------------------------------------------------
+// self-connection detection over ONE long-lived Handshake
+
+/// wait until the `Hand` frame is readable on `s` (without consuming it) and return its nonce
+fn peek_hand_nonce(s: &TcpStream) -> Option<u64> {
+	let mut buf = [0u8; 11 + 16];
+	let t0 = Instant::now();
+	loop {
+		match s.peek(&mut buf) {
+			Ok(n) if n >= buf.len() => break,
+			Ok(0) => return None,
+			Ok(_) => {}
+			Err(_) => return None,
+		}
+		if t0.elapsed() > Duration::from_secs(5) {
+			return None;
+		}
+		std::thread::sleep(Duration::from_millis(1));
+	}
+	let mut n = [0u8; 8];
+	n.copy_from_slice(&buf[11 + 8..11 + 16]);
+	Some(u64::from_be_bytes(n))
+}
+
+fn res_str(r: &Result<u32, String>) -> String {
+	match r {
+		Ok(v) => format!("ok {}", v),
+		Err(e) => format!("err {}", e),
+	}
+}
+
+fn nonce_ring(cx: &mut Ctx) {
+	let g = Hash::from_vec(&[7u8; 32]);
+	let caps = Capabilities::default();
+	let self_addr = PeerAddr("127.0.0.1:3414".parse().unwrap());
+	let hs = Arc::new(Handshake::new(g, P2PConfig::default()));
+	let t0 = Instant::now();
+	cx.out.line("codec ring new", "ok");
+	let mut history: Vec<u64> = vec![];
+
+	// one outbound attempt of `hs`; the listener either hangs up after the Hand or is another node that accepts
+	let attempt = |hs: &Arc<Handshake>, succeed: bool| -> (Option<u64>, Result<u32, String>) {
+		let (mut a, mut b) = hs_pair();
+		let t = std::thread::spawn(move || {
+			global::set_local_chain_type(ChainTypes::AutomatedTesting);
+			let nonce = peek_hand_nonce(&b);
+			if succeed {
+				let other = Handshake::new(g, P2PConfig::default());
+				let _ = other.accept(caps, Difficulty::from_num(5), &mut b);
+			}
+			let _ = b.shutdown(Shutdown::Both);
+			nonce
+		});
+		let r = hs.initiate(caps, Difficulty::from_num(3), self_addr, &mut a).map(|i| i.version.value()).map_err(|e| err_name(&e));
+		let nonce = t.join().unwrap();
+		let _ = a.shutdown(Shutdown::Both);
+		(nonce, r)
+	};
+	// `hs` dials itself: its own `accept` on the other end
+	let self_dial = |hs: &Arc<Handshake>| -> (Option<u64>, Result<u32, String>, bool) {
+		let (mut a, mut b) = hs_pair();
+		let hs2 = hs.clone();
+		let t = std::thread::spawn(move || {
+			global::set_local_chain_type(ChainTypes::AutomatedTesting);
+			let nonce = peek_hand_nonce(&b);
+			let r = hs2.accept(caps, Difficulty::from_num(5), &mut b).map(|i| i.version.value()).map_err(|e| err_name(&e));
+			let _ = b.shutdown(Shutdown::Both);
+			(nonce, r)
+		});
+		let ra = hs.initiate(caps, Difficulty::from_num(3), self_addr, &mut a).map(|i| i.version.value());
+		let (nonce, rb) = t.join().unwrap();
+		(nonce, rb, ra.is_ok())
+	};
+	// a scripted peer presents a Hand with our genesis carrying `nonce` to `hs.accept`
+	let replay = |hs: &Arc<Handshake>, nonce: u64| -> Result<u32, String> {
+		let hand = Hand {
+			version: ProtocolVersion(1000),
+			capabilities: caps,
+			nonce,
+			genesis: g,
+			total_difficulty: Difficulty::from_num(1),
+			sender_addr: self_addr,
+			receiver_addr: self_addr,
+			user_agent: "verif/replay".to_string(),
+		};
+		let bytes = wire(&Msg::new(Type::Hand, hand, ProtocolVersion(1000)).unwrap());
+		let (mut a, mut b) = hs_pair();
+		let t = std::thread::spawn(move || {
+			let _ = a.write_all(&bytes);
+			let _ = a.shutdown(Shutdown::Write);
+			let mut sink = vec![];
+			let _ = a.read_to_end(&mut sink);
+		});
+		let r = hs.accept(caps, Difficulty::from_num(1), &mut b).map(|i| i.version.value()).map_err(|e| err_name(&e));
+		let _ = b.shutdown(Shutdown::Both);
+		let _ = t.join();
+		r
+	};
+
+	// self-dials after exactly this many earlier `initiate()` calls of the same object
+	let checkpoints: Vec<usize> = if cx.thorough { vec![0, 1, 99, 100, 101, 105, 250] } else { vec![0, 1, 99, 100, 101, 105] };
+	let mut replays_done = 0;
+	for &cp in &checkpoints {
+		while history.len() < cp {
+			let succeed = history.len() % 10 == 3;
+			let (nonce, r) = attempt(&hs, succeed);
+			cx.stat(if succeed { "ring: outbound attempts that succeeded (another node accepted)" } else { "ring: outbound attempts that failed (listener hung up after the Hand)" });
+			match nonce {
+				Some(n) => {
+					history.push(n);
+					cx.out.line(&format!("codec ring push {}", n), &res_str(&r));
+				}
+				None => {
+					cx.fails += 1;
+					cx.out.raw("#ORACLE-FAIL C19 ring: no Hand arrived for an outbound attempt");
+					return;
+				}
+			}
+			let ok = if succeed { r == Ok(1000) } else { r == Err("Connection".to_string()) };
+			if !ok {
+				cx.out.raw(&format!("#STAT ring: unexpected outcome of an outbound attempt (succeed={}): {}", succeed, res_str(&r)));
+			}
+		}
+		let prior = history.len();
+		let (nonce, rb, ra_ok) = self_dial(&hs);
+		cx.stat("ring: self dials");
+		let n = match nonce {
+			Some(n) => n,
+			None => {
+				cx.fails += 1;
+				cx.out.raw("#ORACLE-FAIL C19 ring: no Hand arrived for a self dial");
+				return;
+			}
+		};
+		history.push(n);
+		if rb != Err("PeerWithSelf".to_string()) || ra_ok {
+			cx.fails += 1;
+			cx.out.raw(&format!(
+				"#ORACLE-FAIL C19 connection to itself not refused after {} earlier outbound attempts of the same Handshake: accept {} initiate ok={} (nonce {})",
+				prior, res_str(&rb), ra_ok, n
+			));
+		}
+		cx.out.raw(&format!("#STAT ring: self dial after {} prior initiate() calls: accept {}", prior, res_str(&rb)));
+		cx.out.line(&format!("codec ring self {}", n), &res_str(&rb));
+		// replays of older nonces: most recent, oldest retained, just evicted, one older
+		if history.len() >= 2 && (history.len() <= 3 || history.len() >= 102) && replays_done < 3 {
+			replays_done += 1;
+			let len = history.len();
+			for back in [0usize, 1, 97, 98, 99, 100, 150] {
+				if back >= len {
+					continue;
+				}
+				let nonce = history[len - 1 - back];
+				let r = replay(&hs, nonce);
+				cx.stat("ring: replays of an older nonce");
+				cx.out.raw(&format!(
+					"#STAT ring: Hand replaying the nonce drawn {} attempts before the latest one (ring capacity NONCES_CAP-1 = 99), {} attempts so far: accept {}",
+					back, len, res_str(&r)
+				));
+				// retained: the latest NONCES_CAP-1 = 99 nonces (back 0..=98)
+				let want = if back <= 98 { Err("PeerWithSelf".to_string()) } else { Ok(1000) };
+				if r != want {
+					cx.out.raw(&format!("#STAT ring: replay {} attempts back gave {} where the bounded-queue model says {}", back, res_str(&r), res_str(&want)));
+				}
+				cx.out.line(&format!("codec ring replay {}", nonce), &res_str(&r));
+			}
+		}
+	}
+	cx.out.raw(&format!("#STAT ring: {} initiate() calls on one Handshake object in {} ms (write_message spaces them 150 ms apart)", history.len(), t0.elapsed().as_millis()));
+}
+
 fn main() {
 	quiet_panics();
 	global::set_local_chain_type(ChainTypes::AutomatedTesting);
+	// the reader / writer threads `conn::listen` spawns have no thread-local chain type
+	global::init_global_chain_type(ChainTypes::AutomatedTesting);
 	let work = std::path::PathBuf::from(std::env::var("VERIF_WORK").expect("VERIF_WORK"));
 	std::fs::create_dir_all(&work).unwrap();
 	let mut cx = Ctx { out: Out::stdout(), rng: Rng::new(seed_from_env()), thorough: tier_thorough(), stats: BTreeMap::new(), fails: 0, pool: vec![] };
@@ -861,6 +1705,12 @@ fn main() {
 	}
 	if mode == "all" || mode == "handshake" {
 		handshakes(&mut cx);
+	}
+	if mode == "all" || mode == "timed" {
+		timed(&mut cx, &work);
+	}
+	if mode == "all" || mode == "ring" {
+		nonce_ring(&mut cx);
 	}
 	let stats = std::mem::take(&mut cx.stats);
 	for (k, v) in stats {
